@@ -194,6 +194,8 @@ func instantClass(cs caseSpec) string {
 		return fmt.Sprintf("deadline %d ms after context creation", cs.DelayMs)
 	case cs.Anchor == "call":
 		return fmt.Sprintf("%d ms after the call", cs.DelayMs)
+	case cs.Anchor == "announced":
+		return "while Start() is still recording its announcement"
 	case cs.DelayMs == 0:
 		return "at readiness"
 	case cs.DelayMs <= 50:
@@ -278,6 +280,12 @@ func judge(r *vrun.Run, cs caseSpec, res *result) {
 	if cs.Launcher != "" {
 		r.Obs("cases_whose_executable_was_removed_before_the_stop", 1)
 	}
+	if res.StartInProgressAtStop {
+		r.Obs("cases_stopped_while_Start_was_still_in_progress", 1)
+	}
+	if strings.HasPrefix(cs.Stop, "Restart+") {
+		r.Obs("cases_restarted_before_the_context_ended", 1)
+	}
 	if nontrivial {
 		r.Obs("cases_tree_alive_at_stop", 1)
 	}
@@ -348,8 +356,12 @@ func judge(r *vrun.Run, cs caseSpec, res *result) {
 			}
 		case res.NeverReturned && res.StuckStructural:
 			r.Obs("violating_observations", 1)
-			r.Violation(sig("call never returned"),
-				fmt.Sprintf("%s: %s still not over although the whole group is dead; goroutine parked in %s", where, res.Awaited, res.StuckState), res)
+			eff := "call never returned"
+			if res.Awaited == "IsOn()==false" {
+				eff = "IsOn stayed true after the tree was dead"
+			}
+			r.Violation(sig(eff),
+				fmt.Sprintf("%s: %s still not over although the whole group is dead; %s", where, res.Awaited, res.StuckState), res)
 		case res.NeverReturned:
 			r.Inconclusive("stop not over after the tree was dead, no structural witness")
 		default:
